@@ -76,6 +76,7 @@ type Sched struct {
 	// directed schedules (e.g. lock-step round robin with hundreds of threads), never by the explorer.
 	Policy func(enabled []int, cur int) int
 	abort    bool
+	fatal    string
 	// HB
 	lastWrite map[uintptr]acc
 	lastReads map[uintptr][]acc
@@ -224,6 +225,9 @@ func (s *Sched) run(bodies []func(), prefix []int) *Exec {
 					if r := recover(); r != nil {
 						if _, ok := r.(abortSentinel); !ok {
 							s.exec.Err = fmt.Sprint("panic in thread: ", r)
+							if strings.Contains(s.exec.Err, "cannot bind model to code") {
+								s.fatal = fmt.Sprint(r) // the interpreter cannot run this code: no verdict, never a violation
+							}
 						}
 					}
 					t.st = stDone
@@ -272,6 +276,9 @@ func (s *Sched) run(bodies []func(), prefix []int) *Exec {
 			s.kill()
 			break
 		}
+	}
+	if s.fatal != "" {
+		panic(s.fatal)
 	}
 	return s.exec
 }
@@ -515,9 +522,9 @@ func parseOperand(s string) operand {
 	s = strings.TrimSpace(s)
 	switch {
 	case strings.HasPrefix(s, "$"):
-		v, err := strconv.ParseInt(s[1:], 0, 64)
+		v, err := evalImm(s[1:])
 		if err != nil {
-			panic("imm " + s)
+			panic(fmt.Sprintf("x86mini: cannot bind model to code: immediate %q: %v", s, err))
 		}
 		return operand{kind: "imm", imm: v}
 	case strings.HasSuffix(s, "(FP)"):
@@ -616,6 +623,113 @@ func ParseAsm(src, fn string) *Program {
 		}
 	}
 	return p
+}
+
+// AsmConsts holds the Go constants the assembly may refer to as const_<name> (go_asm.h style); the harness fills it.
+var AsmConsts = map[string]int64{}
+
+// evalImm evaluates an immediate: integers, const_<name>, parentheses and + - * / << >> | & with C-like precedence.
+func evalImm(src string) (int64, error) {
+	toks := []string{}
+	for i := 0; i < len(src); {
+		c := src[i]
+		switch {
+		case c == ' ' || c == '\t':
+			i++
+		case strings.ContainsRune("()+-*/|&", rune(c)):
+			toks = append(toks, string(c))
+			i++
+		case c == '<' || c == '>':
+			if i+1 >= len(src) || src[i+1] != c {
+				return 0, fmt.Errorf("unexpected %q", c)
+			}
+			toks = append(toks, src[i:i+2])
+			i += 2
+		default:
+			j := i
+			for j < len(src) && (src[j] == '_' || src[j] == 'x' || src[j] >= '0' && src[j] <= '9' || src[j] >= 'a' && src[j] <= 'z' || src[j] >= 'A' && src[j] <= 'Z') {
+				j++
+			}
+			if j == i {
+				return 0, fmt.Errorf("unexpected %q", c)
+			}
+			toks = append(toks, src[i:j])
+			i = j
+		}
+	}
+	pos := 0
+	prec := map[string]int{"|": 1, "&": 2, "<<": 3, ">>": 3, "+": 4, "-": 4, "*": 5, "/": 5}
+	var expr func(min int) (int64, error)
+	atom := func() (int64, error) {
+		if pos >= len(toks) {
+			return 0, fmt.Errorf("unexpected end")
+		}
+		t := toks[pos]
+		pos++
+		switch {
+		case t == "(":
+			v, err := expr(1)
+			if err != nil {
+				return 0, err
+			}
+			if pos >= len(toks) || toks[pos] != ")" {
+				return 0, fmt.Errorf("missing )")
+			}
+			pos++
+			return v, nil
+		case t == "-":
+			v, err := expr(6)
+			return -v, err
+		case strings.HasPrefix(t, "const_"):
+			v, ok := AsmConsts[t[6:]]
+			if !ok {
+				return 0, fmt.Errorf("unknown Go constant %s", t[6:])
+			}
+			return v, nil
+		}
+		return strconv.ParseInt(t, 0, 64)
+	}
+	expr = func(min int) (int64, error) {
+		l, err := atom()
+		if err != nil {
+			return 0, err
+		}
+		for pos < len(toks) && prec[toks[pos]] >= min {
+			op := toks[pos]
+			pos++
+			r, err := expr(prec[op] + 1)
+			if err != nil {
+				return 0, err
+			}
+			switch op {
+			case "|":
+				l |= r
+			case "&":
+				l &= r
+			case "<<":
+				l <<= uint(r)
+			case ">>":
+				l >>= uint(r)
+			case "+":
+				l += r
+			case "-":
+				l -= r
+			case "*":
+				l *= r
+			case "/":
+				if r == 0 {
+					return 0, fmt.Errorf("division by zero")
+				}
+				l /= r
+			}
+		}
+		return l, nil
+	}
+	v, err := expr(1)
+	if err == nil && pos != len(toks) {
+		err = fmt.Errorf("trailing %q", toks[pos])
+	}
+	return v, err
 }
 
 func isRegName(r string) bool {
@@ -734,7 +848,7 @@ func (p *Program) Run(frame []byte, globals map[string]uintptr) {
 			}
 			return a + uintptr(o.off)
 		}
-		panic("addrOf " + o.kind)
+		panic("x86mini: cannot bind model to code: address of a " + o.kind + " operand")
 	}
 	shared := func(o operand) bool { return o.kind == "mem" }
 	load := func(o operand, n int) uint64 {
@@ -779,6 +893,11 @@ func (p *Program) Run(frame []byte, globals map[string]uintptr) {
 			}
 		case "sp":
 			c.stack[o.off] = c.stack[o.off]&^mask(n) | v&mask(n)
+		case "fp":
+			// an argument slot reused as a local (the frame is private to this activation)
+			for i := 0; i < n; i++ {
+				frame[int(o.off)+i] = byte(v >> (8 * uint(i)))
+			}
 		case "mem", "sb":
 			a := addrOf(o)
 			if n == 8 {
@@ -803,7 +922,7 @@ func (p *Program) Run(frame []byte, globals map[string]uintptr) {
 				*(*uint32)(unsafe.Pointer(a)) = uint32(v)
 			}
 		default:
-			panic("store to " + o.kind)
+			panic("x86mini: cannot bind model to code: store to a " + o.kind + " operand")
 		}
 	}
 	lockNext := false
@@ -1048,12 +1167,12 @@ func (p *Program) Run(frame []byte, globals map[string]uintptr) {
 					c.regs[r] = 0xdeadbeef
 				} // caller-saved: clobbered
 			} else {
-				panic("unsupported CALL form")
+				panic("x86mini: cannot bind model to code: unsupported CALL form")
 			}
 		case "RET":
 			return
 		default:
-			panic(fmt.Sprintf("x86mini: unsupported instruction %q at line %d", it.text, it.line))
+			panic(fmt.Sprintf("x86mini: cannot bind model to code: unsupported instruction %q at line %d", it.text, it.line))
 		}
 		c.pc = next
 	}
